@@ -103,7 +103,7 @@ func (rd *realDecoder) getArrayLength() (int, error) {
 	if tmp > rd.remaining() {
 		rd.off = len(rd.raw)
 		return -1, ErrInsufficientData
-	} else if tmp > 2*math.MaxUint16 {
+	} else if tmp > 2*math.MaxUint16 || tmp < -1 {
 		return -1, errInvalidArrayLength
 	}
 	return tmp, nil
@@ -117,6 +117,13 @@ func (rd *realDecoder) getCompactArrayLength() (int, error) {
 
 	if n == 0 {
 		return 0, nil
+	}
+
+	if n-1 > uint64(rd.remaining()) {
+		rd.off = len(rd.raw)
+		return 0, ErrInsufficientData
+	} else if n-1 > 2*math.MaxUint16 {
+		return 0, errInvalidArrayLength
 	}
 
 	return int(n) - 1, nil
@@ -229,6 +236,13 @@ func (rd *realDecoder) getCompactString() (string, error) {
 		return "", err
 	}
 
+	if n == 0 {
+		return "", errInvalidStringLength
+	}
+	if n-1 > uint64(rd.remaining()) {
+		rd.off = len(rd.raw)
+		return "", ErrInsufficientData
+	}
 	length := int(n - 1)
 
 	tmpStr := string(rd.raw[rd.off : rd.off+length])
@@ -242,11 +256,14 @@ func (rd *realDecoder) getCompactNullableString() (*string, error) {
 		return nil, err
 	}
 
-	length := int(n - 1)
-
-	if length < 0 {
+	if n == 0 {
 		return nil, err
 	}
+	if n-1 > uint64(rd.remaining()) {
+		rd.off = len(rd.raw)
+		return nil, ErrInsufficientData
+	}
+	length := int(n - 1)
 
 	tmpStr := string(rd.raw[rd.off : rd.off+length])
 	rd.off += length
@@ -263,6 +280,10 @@ func (rd *realDecoder) getCompactInt32Array() ([]int32, error) {
 		return nil, nil
 	}
 
+	if n-1 > uint64(rd.remaining()/4) {
+		rd.off = len(rd.raw)
+		return nil, ErrInsufficientData
+	}
 	arrayLength := int(n) - 1
 
 	ret := make([]int32, arrayLength)
@@ -346,6 +367,12 @@ func (rd *realDecoder) getStringArray() ([]string, error) {
 
 	if n < 0 {
 		return nil, errInvalidArrayLength
+	}
+
+	if n > rd.remaining()/2 {
+		// every string takes at least its two-byte length
+		rd.off = len(rd.raw)
+		return nil, ErrInsufficientData
 	}
 
 	ret := make([]string, n)
